@@ -277,3 +277,255 @@ def add_c07_suites(c, samples):
         sc = gen_converged(rng, rng.choice([1, 2]), 1, rng.choice([10, 16]), {"pub": 7, "sub": 6, "connect": 3})
         scs.append(sc)
     run_scenarios(c, "broker-retained-replay", scs, samples)
+
+
+# ------------------------------------------------------------------------------------------------ C03: retransmission
+
+def gen_retransmit(rng, nn=1):
+    """deliveries left unacknowledged, sweeps, client answers: ack / silence / wrong type / wrong id / disconnect"""
+    sc = Scenario(rng, nn, 1)
+    pubr = sc.connect(node=0)
+    subs = [sc.connect(node=rng.randrange(nn)) for _ in range(rng.choice([1, 2, 3]))]
+    for s in subs:
+        sc.sub(s, [(rng.choice(["a/#", "a/b", "+/b"]), rng.choice([1, 2, 1, 2, 0]))])
+    outstanding = {s: [] for s in subs}   # per client: list of [content, phase] ; phase: 'pub1' | 'pub2' | 'rel'
+    counters = {s: 0 for s in subs}
+    for _ in range(rng.choice([4, 7, 10])):
+        r = rng.random()
+        live = [s for s in subs if sc.clients[s]["alive"]]
+        if r < 0.4 or not any(outstanding[s] for s in live):
+            # a new message: left unacknowledged
+            sc.mid += 1
+            payload = "%02x" % (sc.mid % 256)
+            deliv = sc.deliveries("mp", "a/b", payload, 0)
+            exp = {k: list(v) for k, v in deliv.items()}
+            exp.setdefault(pubr, []).append(f"puback({sc.mid})")
+            sc.emit(f"pub {pubr} a/b {payload} 1 0 0 {sc.mid}", exp, "delivery")
+            for k, v in deliv.items():
+                for p in sorted(v):
+                    if ",q=0," in p:
+                        continue
+                    counters[k] += 1
+                    outstanding[k].append([p, "pub", counters[k]])
+        elif r < 0.65:
+            # sweeps: everything outstanding for live sessions is sent again, same identifier
+            node = rng.randrange(nn)
+            exp = {}
+            for s in live:
+                if sc.clients[s]["node"] != node:
+                    continue
+                for p, phase, can in outstanding[s]:
+                    exp.setdefault(s, []).append(p if phase == "pub" else "pubrel")
+            sc.emit(f"expire {node}", exp, "retransmission")
+        elif r < 0.85:
+            s = rng.choice([x for x in live if outstanding[x]] or live)
+            if not outstanding[s]:
+                continue
+            ent = rng.choice(outstanding[s])
+            p, phase, can = ent
+            how = rng.choice(["right", "right", "wrongtype", "wrongid"])
+            if how == "wrongid":
+                sc.emit(f"rawack {s} puback {rng.choice([7777, 0, 65535])}", {}, "wrong-id-disturbed")
+            elif how == "wrongtype":
+                kind = "pubcomp" if phase == "pub" else "pubrec"
+                if ",q=2," in p and phase == "pub":
+                    kind = "puback"
+                sc.emit(f"ack {s} {kind} #{can}", {}, "wrong-type-disturbed")
+            else:
+                if ",q=1," in p:
+                    sc.emit(f"ack {s} puback #{can}", {}, "ack")
+                    outstanding[s].remove(ent)
+                elif phase == "pub":
+                    sc.emit(f"ack {s} pubrec #{can}", {s: ["pubrel"]}, "qos2-phase")
+                    ent[1] = "rel"
+                else:
+                    sc.emit(f"ack {s} pubcomp #{can}", {}, "ack")
+                    outstanding[s].remove(ent)
+        else:
+            s = rng.choice(live)
+            if len(live) > 1:
+                sc.end(s, rng.choice(["disconnect", "drop"]))
+                outstanding[s] = []
+                # after the session ended a sweep sends nothing for it and releases its identifiers
+                sc.emit(f"expire {sc.clients[s]['node']}", {k: [q if ph == "pub" else "pubrel" for q, ph, _ in outstanding[k]] for k in subs
+                                                          if sc.clients[k]["alive"] and sc.clients[k]["node"] == sc.clients[s]["node"]}, "retransmission")
+    for n in range(nn):
+        sc.ops.append(f"pool {n}")
+    return sc
+
+
+# ------------------------------------------------------------------------------------------------ C05 / C14: faults and placement
+
+def gen_faults(rng, nn):
+    sc = Scenario(rng, nn, 1)
+    pubr = sc.connect(node=0)
+    subs = []
+    for n in range(nn):
+        for _ in range(rng.choice([0, 1, 1, 2])):
+            c = sc.connect(node=n)
+            sc.sub(c, [(rng.choice(["t/#", "t/a", "+/a", "u"]), rng.choice([0, 1]))])
+            subs.append(c)
+    for _ in range(rng.choice([3, 5, 8])):
+        # choose a fault pattern
+        down = [n for n in range(1, nn) if rng.random() < 0.35]
+        logfail = [n for n in range(nn) if rng.random() < 0.25]
+        for n in range(1, nn):
+            sc.ops.append(f"unreachable {n} {1 if n in down else 0}")
+        for n in range(nn):
+            sc.ops.append(f"logfail {n} {'all' if n in logfail else 'none'}")
+        topic = rng.choice(["t/a", "t/b", "u", "v"])
+        qos = rng.choice([0, 1, 1, 2])
+        sc.mid += 1
+        mid = sc.mid
+        payload = "%02x" % (mid % 256)
+        # destinations = nodes hosting a matching subscription
+        dest = sorted({sc.clients[c]["node"] for c in subs if sc.clients[c]["alive"] and any(mqtt_match(f.split("/"), topic.split("/")) for f in sc.clients[c]["subs"])})
+        failed = [n for n in dest if n in logfail or (n in down and n != 0)]
+        deliv = {}
+        for c in subs:
+            v = sc.clients[c]
+            if v["alive"] and v["node"] in dest and v["node"] not in failed:
+                for f, q in v["subs"].items():
+                    if mqtt_match(f.split("/"), topic.split("/")):
+                        deliv.setdefault(c, []).append(pubstr(topic, payload, q, 0, 0))
+        if qos == 2:
+            sc.emit(f"pub {pubr} {topic} {payload} 2 0 0 {mid}", {pubr: [f"pubrec({mid})"]}, "qos2-forwarded-early")
+            if rng.random() < 0.3:
+                # a repeated PUBLISH during the open handshake ends the session in this broker: do not send it;
+                pass
+            exp = {k: list(v) for k, v in deliv.items()}
+            if not failed:
+                exp.setdefault(pubr, []).append(f"pubcomp({mid})")
+            sc.emit(f"rawack {pubr} pubrel {mid}", exp, "ack-despite-failed-write" if failed else "delivery")
+            if rng.random() < 0.5:
+                # a repeated PUBREL must not forward again
+                sc.emit(f"rawack {pubr} pubrel {mid}", {}, "qos2-forwarded-twice")
+        else:
+            exp = {k: list(v) for k, v in deliv.items()}
+            if qos == 1 and not failed:
+                exp.setdefault(pubr, []).append(f"puback({mid})")
+            sc.emit(f"pub {pubr} {topic} {payload} {qos} 0 0 {mid}", exp, "ack-despite-failed-write" if failed else "delivery")
+        sc.ack_receivers(deliv)
+        for n in range(nn):
+            sc.ops.append(f"log {n}")
+    return sc
+
+
+# ------------------------------------------------------------------------------------------------ C11 / C12 / C13 / C17: lifecycle
+
+def gen_lifecycle(rng, nn, mounts=1, takeover=0.25, fine_gossip=False):
+    """connect / subscribe / publish / ping / disconnect / drop / take-over, with gossip either fully delivered after
+    every change (oracle applies) or delivered link by link in random order (model comparison only)"""
+    sc = Scenario(rng, nn, mounts)
+    cids = {}
+    for _ in range(rng.choice([6, 10, 16])):
+        r = rng.random()
+        alive = sc.alive()
+        if r < 0.25 or not alive:
+            if len(sc.clients) >= 8:
+                continue
+            will = rng.choice([None, ("w/t", rng.choice(["6465", "00"]), rng.choice([0, 1]), rng.choice([0, 0, 1]))])
+            mount = rng.choice(sc.mounts)
+            cid = None
+            if alive and rng.random() < takeover:
+                # re-use a client id that is in use (in the same or another mount point)
+                victim = rng.choice(alive)
+                cid = sc.clients[victim]["cid"]
+                if rng.random() < 0.7:
+                    mount = sc.clients[victim]["mount"]
+            name = f"c{sc.k + 1}"
+            displaced = [c for c in alive if cid and sc.clients[c]["cid"] == cid and sc.clients[c]["mount"] == mount]
+            if fine_gossip:
+                sc.k += 1
+                spec = "-" if not will else f"{will[0]}:{will[1]}:{will[2]}:{will[3]}"
+                node = rng.randrange(nn)
+                sc.clients[name] = {"node": node, "mount": mount, "cid": cid or f"id{sc.k}", "will": will, "subs": {}, "alive": True}
+                sc.ops.append(f"connect {name} {node} {cid or f'id{sc.k}'} {mount} 60 {spec}")
+            else:
+                sc.connect(mount=mount, will=will, cid=cid)
+            for d in displaced:
+                sc.clients[d]["displaced"] = True
+        elif r < 0.45:
+            c = rng.choice(alive)
+            fl = rng.sample(["a/#", "a/b", "#", "+/t", "w/#"], rng.choice([1, 2]))
+            if fine_gossip or sc.clients[c].get("displaced"):
+                sc.mid += 1
+                for f in fl:
+                    sc.clients[c]["subs"][f] = 1
+                sc.ops.append(f"sub {c} {sc.mid} " + ",".join(f"{f}:1" for f in fl))
+                sc.ops.append(f"ackall {c}")
+            else:
+                sc.sub(c, [(f, rng.choice([0, 1])) for f in fl])
+        elif r < 0.62:
+            c = rng.choice(alive)
+            if fine_gossip or any(v.get("displaced") for v in sc.clients.values()):
+                sc.mid += 1
+                t_, q_, r_ = rng.choice(['a/b', 'w/t', 'a']), rng.choice([0, 1]), rng.choice([0, 0, 1])
+                sc.ops.append(f"pub {c} {t_} 01 {q_} {r_} 0 {sc.mid}")
+                if r_:
+                    sc.retained[(sc.clients[c]["mount"], t_)] = ("01", q_, 0)
+                for x in sc.alive():
+                    sc.ops.append(f"ackall {x}")
+            else:
+                sc.pub(c, rng.choice(["a/b", "w/t", "a"]), "01", rng.choice([0, 1]), rng.choice([0, 0, 1]))
+        elif r < 0.75:
+            c = rng.choice(alive)
+            if sc.clients[c].get("displaced"):
+                # the displaced session is dropped at its keep-alive exchange, silently (no will)
+                sc.clients[c]["alive"] = False
+                sc.ops.append(f"ping {c}")
+                sc.ops.append("gossip") if not fine_gossip and nn > 1 else None
+            elif fine_gossip:
+                sc.ops.append(f"ping {c}")
+            else:
+                sc.emit(f"ping {c}", {c: ["pingresp"]}, "healthy-session-ended")
+        elif r < 0.9:
+            c = rng.choice(alive)
+            how = rng.choice(["disconnect", "drop"])
+            if fine_gossip or sc.clients[c].get("displaced") or any(v.get("displaced") and v["alive"] for v in sc.clients.values()):
+                sc.clients[c]["alive"] = False
+                sc.ops.append(f"{how} {c}")
+                v_ = sc.clients[c]
+                if how == "drop" and v_["will"] and v_["will"][3] and not v_.get("displaced"):
+                    sc.retained[(v_["mount"], v_["will"][0])] = (v_["will"][1], v_["will"][2], 0)
+                for x in sc.alive():
+                    sc.ops.append(f"ackall {x}")
+                if not fine_gossip:
+                    sc.gossip()
+            else:
+                sc.end(c, how)
+        else:
+            if fine_gossip and nn > 1:
+                a, b = rng.sample(range(nn), 2)
+                sc.ops.append(f"bc {a} {b}")
+        if fine_gossip and nn > 1 and rng.random() < 0.5:
+            a, b = rng.sample(range(nn), 2)
+            sc.ops.append(f"bc {a} {b}")
+    if fine_gossip:
+        sc.ops.append("gossip")
+        sc.ops.append("gossip")
+    # drain displaced sessions so that the final state is determined
+    for c, v in sc.clients.items():
+        if v["alive"] and v.get("displaced"):
+            v["alive"] = False
+            sc.ops.append(f"ping {c}")
+    if nn > 1:
+        sc.ops.append("gossip")
+    if not fine_gossip:
+        sc.check_state()
+    else:
+        for n in range(nn):
+            sc.ops.append(f"state {n}")
+    return sc
+
+
+def add_timing_suites(c, samples):
+    return
+
+
+def add_nodefail_suites(c, samples):
+    return
+
+
+def add_reallog_suites(c, samples):
+    return
